@@ -27,6 +27,8 @@ enum Pol {
     SubMs,
     /// 2.75 ms: a fractional number of milliseconds
     Fractional,
+    /// exponential from 1.25 s, capped at 3.5 s: whole seconds plus a sub-second part
+    Seconds,
 }
 
 impl Pol {
@@ -40,6 +42,7 @@ impl Pol {
             Pol::Custom => ReconnectPolicy::Custom(Arc::new(ExponentialBackoff::new(Duration::from_millis(7)).multiplier(3.0))),
             Pol::SubMs => ReconnectPolicy::fixed(Duration::from_micros(900)),
             Pol::Fractional => ReconnectPolicy::fixed(Duration::from_micros(2750)),
+            Pol::Seconds => ReconnectPolicy::exponential(Duration::from_millis(1250), Duration::from_millis(3500)),
         }
     }
     /// upper bound (ms) of the configured delay for attempt index a
@@ -60,6 +63,7 @@ impl Pol {
             Pol::Custom => exp(7.0, 3.0, f64::MAX),
             Pol::SubMs => 0.9,
             Pol::Fractional => 2.75,
+            Pol::Seconds => exp(1250.0, 2.0, 3500.0),
         }
     }
 }
@@ -101,7 +105,8 @@ fn run_one(cfg: &Cfg, prelude: &[u8], script: &[u8], trace: bool) -> (Vec<(Strin
     let site = "ReconnectService";
     let mut viols: Vec<(String, String)> = vec![];
     let mut log = vec![];
-    let mut w = World::new(2, 10, Mode::Script, 1);
+    // the seconds-range policy is stepped on a coarser grid (its delays are 1.25 s and more)
+    let mut w = World::new(2, if cfg.pol == Pol::Seconds { 625 } else { 10 }, Mode::Script, 1);
     {
         let mut g = w.inner.lock().unwrap();
         for o in prelude.iter() {
@@ -297,7 +302,7 @@ fn grid(tier: Tier) -> Vec<Cfg> {
         if tier == Tier::Quick && max == Some(4) {
             continue;
         }
-        for pol in [Pol::None, Pol::Zero, Pol::Fixed, Pol::Exponential, Pol::Jittered, Pol::Custom, Pol::SubMs, Pol::Fractional] {
+        for pol in [Pol::None, Pol::Zero, Pol::Fixed, Pol::Exponential, Pol::Jittered, Pol::Custom, Pol::SubMs, Pol::Fractional, Pol::Seconds] {
             for retry_on_reconnect in [true, false] {
                 for predicate in [false, true] {
                     if tier == Tier::Quick && max == Some(3) && pol == Pol::Jittered {
